@@ -465,15 +465,6 @@ func (w *Wallet) syncWithChain(birthdayStamp *waddrmgr.BlockStamp) error {
 		}
 	}
 
-	// If the wallet requested an on-chain recovery of its funds, we'll do
-	// so now.
-	if w.recoveryWindow > 0 {
-		if err := w.recovery(chainClient, birthdayStamp); err != nil {
-			return fmt.Errorf("unable to perform wallet recovery: "+
-				"%w", err)
-		}
-	}
-
 	// Compare previously-seen blocks against the current chain. If any of
 	// these blocks no longer exist, rollback all of the missing blocks
 	// before catching up with the rescan.
@@ -530,6 +521,10 @@ func (w *Wallet) syncWithChain(birthdayStamp *waddrmgr.BlockStamp) error {
 			if err != nil {
 				return err
 			}
+
+			// The recovery below starts filtering blocks at the
+			// birthday block.
+			birthdayStamp = &rollbackStamp
 		}
 
 		// Finally, we'll roll back our transaction store to reflect the
@@ -540,6 +535,18 @@ func (w *Wallet) syncWithChain(birthdayStamp *waddrmgr.BlockStamp) error {
 	})
 	if err != nil {
 		return err
+	}
+
+	// If the wallet requested an on-chain recovery of its funds, we'll do
+	// so now. This has to come after the rollback above: recovery scans
+	// from our synced-to block to the backend's tip and moves our
+	// synced-to block along, so a reorganization of blocks we have
+	// already seen would no longer be noticed afterwards.
+	if w.recoveryWindow > 0 {
+		if err := w.recovery(chainClient, birthdayStamp); err != nil {
+			return fmt.Errorf("unable to perform wallet recovery: "+
+				"%w", err)
+		}
 	}
 
 	// Request notifications for connected and disconnected blocks.
